@@ -162,6 +162,20 @@ impl Scenario for C17 {
             }
             scripts.push(s);
         }
+        // one episode in six: a burst of unwrap attempts that all fail at once (cost parameters no KDF
+        // accepts) early in one thread's script, password wraps and unwraps at the end of every script:
+        // however often an operation fails, the process serves the next caller as before
+        if b.rng.chance(1, 6) {
+            let t = b.rng.usize_below(scripts.len());
+            let at = b.rng.usize_below(scripts[t].len().min(3) + 1);
+            let variant = b.rng.below(8) as u8;
+            let times = *b.rng.pick(&[1u32, 8, 40, 200, 300]);
+            scripts[t].insert(at, TOp::UnwrapPwCrafted { variant, times });
+            for s in scripts.iter_mut() {
+                s.push(TOp::WrapPw);
+                s.push(TOp::UnwrapPwOwn);
+            }
+        }
         let sched = match b.rng.below(5) {
             0 | 1 => SchedKind::Random,
             2 | 3 => SchedKind::Pct { depth: 1 + b.rng.below(3) as u32 },
